@@ -7,6 +7,10 @@
      "cons"    t(c1 INT PRIMARY KEY, c2 INT NOT NULL DEFAULT 1, c3 INT NULL, c4 INT AS (c2 + 1) STORED,
                  CHECK (c3 >= c2))                                              -- C19
      "auto"    t(c1 INT PRIMARY KEY AUTO_INCREMENT, c2 INT NULL UNIQUE)         -- C20
+     "prefix"  t(c1 INT PRIMARY KEY, c2 VARCHAR NULL, UNIQUE KEY u1 (c2(2)))    -- C14: prefix unique key, values
+               shorter than / equal to / longer than the prefix that share prefixes ('a' 'ab' 'abc' 'abd' 'b')
+     "prefixpk" s(c1 VARCHAR NOT NULL, c2 INT NULL, PRIMARY KEY (c1(2)))        -- C14, model only (the engine
+               refuses prefix lengths in a PRIMARY KEY: "prefix index on string column unsupported")
    Key values range over K, rows per table <= MaxRows, integers <= MaxVal, ids <= MaxId.
    Rows are kept sorted (canonical), `act` (last statement and reply) and `step` are hidden by the
    VIEW.  The `Emit` action constraint prints every explored transition (binding A: the simulated
@@ -44,11 +48,18 @@ TAuto == [cols |-> <<MkCol("i", "none", TRUE, FALSE, NULL, TRUE, FALSE, ELit(NUL
           checks |-> <<>>, pk |-> <<1>>,
           uniq |-> << [name |-> "u1", parts |-> << [col |-> 2, plen |-> 0] >>] >>, rows |-> <<>>]
 
+StrColM(notnull) == MkCol("s", "bin", notnull, FALSE, NULL, FALSE, FALSE, ELit(NULL))
+TPrefix == [cols |-> <<IntCol(TRUE), StrColM(FALSE)>>, checks |-> <<>>, pk |-> <<1>>,
+            uniq |-> << [name |-> "u1", parts |-> << [col |-> 2, plen |-> 2] >>] >>, rows |-> <<>>]
+TPrefixPK == [cols |-> <<StrColM(TRUE), IntCol(FALSE)>>, checks |-> <<>>, pk |-> <<1>>, pkplen |-> <<2>>, uniq |-> <<>>, rows |-> <<>>]
+
 Tabs0 == CASE Preset = "keys" -> [t |-> TKeys]
            [] Preset = "keyless" -> [s |-> TKeyless]
            [] Preset = "both" -> [t |-> TKeys, s |-> TKeyless]
            [] Preset = "cons" -> [t |-> TCons]
            [] Preset = "auto" -> [t |-> TAuto]
+           [] Preset = "prefix" -> [t |-> TPrefix]
+           [] Preset = "prefixpk" -> [s |-> TPrefixPK]
 
 \* ------------------------------------------------------------------ statement grammars
 OdkuSets3 == { <<SetItem(3, ECol(6, "none"))>>, <<SetItem(2, ECol(5, "none"))>>, <<SetItem(1, Plus1(cc1))>> }
@@ -112,14 +123,38 @@ AutoStmts ==
      \cup {SDelete("t", w, <<>>, -1) : w \in {ETrue}}
      \cup {SDelete("t", ETrue, <<Ord(1, TRUE)>>, 1)}
      \cup {STruncate("t")}
-     \cup {SAlterAuto("t", n) : n \in {1, 3, 5}}
+     \cup {SAlterAuto("t", n) : n \in 1..5}      \* below, equal to, one above and far above the stored maximum (explicit ids 2 and 4)
      \cup {[BaseStmt EXCEPT !.k = "lastid"]}
+
+\* strings around a prefix length of 2: shorter ('a', 'b'), equal ('ab'), longer with the same prefix ('abc', 'abd')
+SV == {S(<<97>>), S(<<97, 98>>), S(<<97, 98, 99>>), S(<<97, 98, 100>>), S(<<98>>)}
+ccs2 == ECol(2, "bin")
+ccs1 == ECol(1, "bin")
+PrefixStmts ==
+  LET U == {NULL} \cup SV
+      R1 == {Cells(<<k, u>>) : k \in KV, u \in U}
+      od == {<<SetItem(2, ECol(4, "bin"))>>, <<SetItem(1, Plus1(cc1))>>}
+  IN InsFor("t", <<1, 2>>, R1, od)
+     \cup Ins2For("t", <<1, 2>>, {Cells(<<k, u>>) : k \in KV, u \in SV}, {<<SetItem(2, ECol(4, "bin"))>>})
+     \cup {SUpdate("t", ig, <<SetItem(2, ELit(u))>>, w, <<>>, -1) : ig \in BOOLEAN, u \in U, w \in {ETrue} \cup {Eq(cc1, k) : k \in KV}}
+     \cup {SUpdate("t", FALSE, <<SetItem(1, Plus1(cc1))>>, ETrue, o, -1) : o \in {<<>>, <<Ord(1, TRUE)>>}}
+     \cup {SDelete("t", w, <<>>, -1) : w \in {ETrue} \cup {Eq(cc1, k) : k \in KV} \cup {Eq(ccs2, u) : u \in SV}}
+PrefixPKStmts ==
+  LET R1 == {Cells(<<u, v>>) : u \in SV, v \in {NULL, I(0)}}
+      od == {<<SetItem(2, ECol(4, "none"))>>, <<SetItem(1, ECol(3, "bin"))>>}
+  IN InsFor("s", <<1, 2>>, R1, od)
+     \cup Ins2For("s", <<1, 2>>, {Cells(<<u, NULL>>) : u \in SV}, {<<SetItem(2, ECol(4, "none"))>>})
+     \cup {SUpdate("s", ig, <<SetItem(1, ELit(u))>>, w, <<>>, -1) : ig \in {FALSE}, u \in SV, w \in {ETrue} \cup {Eq(ccs1, q) : q \in SV}}
+     \cup {SUpdate("s", FALSE, <<SetItem(2, Plus1(cc2))>>, Eq(ccs1, q), <<>>, -1) : q \in SV}
+     \cup {SDelete("s", w, <<>>, -1) : w \in {ETrue} \cup {Eq(ccs1, q) : q \in SV}}
 
 Stmts == CASE Preset = "keys" -> KeysStmts
            [] Preset = "keyless" -> KeylessStmts
            [] Preset = "both" -> KeysStmts \cup KeylessStmts
            [] Preset = "cons" -> ConsStmts
            [] Preset = "auto" -> AutoStmts
+           [] Preset = "prefix" -> PrefixStmts
+           [] Preset = "prefixpk" -> PrefixPKStmts
 
 \* ------------------------------------------------------------------ the state machine
 AllAsc(T) == [j \in DOMAIN T.cols |-> Ord(j, FALSE)]
